@@ -18,9 +18,9 @@ type Genuine struct {
 	// InheritNS: the encrypted plaintext is the assertion's serialisation AS IT STANDS in the Response — namespace
 	// prefixes declared on the Response are not re-declared inside the fragment (XML-Enc 4.3.3 allows the
 	// plaintext to depend on its context; the decrypted element is put back into that very context)
-	InheritNS bool `json:"inheritNS,omitempty"`
-	Layout    Layout        `json:"layout"`
-	Pres      Presentation  `json:"pres"`
+	InheritNS bool         `json:"inheritNS,omitempty"`
+	Layout    Layout       `json:"layout"`
+	Pres      Presentation `json:"pres"`
 }
 
 // AllowsComments: comments may be injected after signing iff every signature strips them.
